@@ -158,11 +158,18 @@ fn one<T: Flt>(acc: &mut Acc, item: &Item, chunk: usize, journal: Option<&Journa
     }
     let deg = item.degree.degree();
     let eps_t = if T::IS_F32 { f32::EPSILON as f64 } else { f64::EPSILON };
-    for k in 0..=(deg + 1) {
+    // the monomials, and once more the straight line with one NaN sample in the middle of the
+    // stream: frames whose window holds the NaN are NaN, every finite frame is still the value
+    // of the polynomial at its instant
+    let passes: Vec<(usize, bool)> = (0..=(deg + 1)).map(|k| (k, false)).chain(if deg >= 1 { Some((1usize, true)) } else { None }).collect();
+    for (k, poison) in passes {
         if let Some(j) = journal {
-            j.write(&cfg.to_json(), &format!("monomial k={} T={}", k, T::NAME));
+            j.write(&cfg.to_json(), &format!("monomial k={} T={}{}", k, T::NAME, if poison { " with a NaN sample" } else { "" }));
         }
-        let x: Vec<f64> = (0..n_in).map(|n| (n as f64 / 64.0).powi(k as i32)).collect();
+        let mut x: Vec<f64> = (0..n_in).map(|n| (n as f64 / 64.0).powi(k as i32)).collect();
+        if poison {
+            x[n_in / 2] = f64::NAN;
+        }
         // in f32 the input itself is rounded: compare with the polynomial through the rounded
         // samples only up to the conditioning of the interpolation formula
         let s = resample_all_x::<T>(&cfg, &x, &Opts { pre: rel, ramp, pre2: pre2.map(|x| (x, 2)), masked_tail: item.tail, ..Opts::default() })?;
